@@ -1,7 +1,25 @@
 use core::num::ParseIntError;
 
+/// Makes sure that `hex` only consists of ASCII hexadecimal digits, before it
+/// is split into components.
+///
+/// `from_str_radix` accepts a leading `+`, and slicing at a fixed byte index
+/// panics if it ends up inside a multi-byte character, so everything else has
+/// to be rejected up front. The `rgba_*` functions are covered by the `rgb_*`
+/// function they call first, since it receives the whole string.
+#[inline]
+fn check_hex_digits(hex: &str) -> Result<(), ParseIntError> {
+    match hex.char_indices().find(|(_, c)| !c.is_ascii_hexdigit()) {
+        // Parsing the offending character on its own reports it as an invalid digit.
+        Some((i, c)) => u8::from_str_radix(&hex[i..i + c.len_utf8()], 16).map(|_| ()),
+        None => Ok(()),
+    }
+}
+
 #[inline]
 pub(crate) fn rgb_from_hex_4bit(hex: &str) -> Result<(u8, u8, u8), ParseIntError> {
+    check_hex_digits(hex)?;
+
     let red = u8::from_str_radix(&hex[..1], 16)?;
     let green = u8::from_str_radix(&hex[1..2], 16)?;
     let blue = u8::from_str_radix(&hex[2..3], 16)?;
@@ -19,6 +37,8 @@ pub(crate) fn rgba_from_hex_4bit(hex: &str) -> Result<(u8, u8, u8, u8), ParseInt
 
 #[inline]
 pub(crate) fn rgb_from_hex_8bit(hex: &str) -> Result<(u8, u8, u8), ParseIntError> {
+    check_hex_digits(hex)?;
+
     let red = u8::from_str_radix(&hex[..2], 16)?;
     let green = u8::from_str_radix(&hex[2..4], 16)?;
     let blue = u8::from_str_radix(&hex[4..6], 16)?;
@@ -36,6 +56,8 @@ pub(crate) fn rgba_from_hex_8bit(hex: &str) -> Result<(u8, u8, u8, u8), ParseInt
 
 #[inline]
 pub(crate) fn rgb_from_hex_16bit(hex: &str) -> Result<(u16, u16, u16), ParseIntError> {
+    check_hex_digits(hex)?;
+
     let red = u16::from_str_radix(&hex[..4], 16)?;
     let green = u16::from_str_radix(&hex[4..8], 16)?;
     let blue = u16::from_str_radix(&hex[8..12], 16)?;
@@ -53,6 +75,8 @@ pub(crate) fn rgba_from_hex_16bit(hex: &str) -> Result<(u16, u16, u16, u16), Par
 
 #[inline]
 pub(crate) fn rgb_from_hex_32bit(hex: &str) -> Result<(u32, u32, u32), ParseIntError> {
+    check_hex_digits(hex)?;
+
     let red = u32::from_str_radix(&hex[..8], 16)?;
     let green = u32::from_str_radix(&hex[8..16], 16)?;
     let blue = u32::from_str_radix(&hex[16..24], 16)?;
